@@ -48,7 +48,9 @@ def cases(draw, tier="quick"):
                                         "ABS_FRESH", "ABS_EXISTING_FILE", "ABS_EXISTING_DIR", "..", "."]))
     c["accept"] = draw(st.booleans())
     c["answer"] = draw(st.sampled_from(["y", "", "Y", "yes", "n", "no", "x"]))
-    c["pre"] = draw(st.sampled_from(["none", "none", "file", "emptydir", "dir", "fifo", "dangling"]))
+    # a long-running receiver: a second receive() with the same configuration object, for a file of that name
+    c["again"] = draw(st.sampled_from([None, None, None, "a.txt", "b.bin"]))
+    c["pre"] = draw(st.sampled_from(["none", "none", "file", "emptydir", "dir", "fifo", "dangling", "linkfile"]))
     c["pre_tmp"] = draw(st.sampled_from([False, False, True]))
     c["size"] = draw(st.sampled_from([0, 1, 100, 5000]))
     c["lie"] = draw(st.sampled_from([0, 0, 0, -1, 7]))
@@ -295,6 +297,13 @@ def _run(c, res, base, cmd_receive):
             if pre == "fifo":
                 os.mkfifo(path)
                 return "fifo"
+            if pre == "linkfile":
+                # a symbolic link to a regular file that lives elsewhere: replacing the destination may remove the
+                # link, never the file it points to
+                os.makedirs(os.path.join(base, "elsewhere"), exist_ok=True)
+                put(os.path.join(base, "elsewhere", "precious.txt"), b"precious content, not named by anybody")
+                os.symlink(os.path.join(base, "elsewhere", "precious.txt"), path)
+                return "linkfile"
             if pre == "dangling":
                 # a stale symlink whose target does not exist (its parent does, outside the working directory)
                 os.makedirs(os.path.join(base, "elsewhere"), exist_ok=True)
@@ -412,6 +421,43 @@ def _run(c, res, base, cmd_receive):
         outcome.append(("pending", None))
     ok = outcome[0][0] == "ok"
     after = snapshot(base)
+    # ---- a second transfer in the same process with the same configuration object (a long-running receiver):
+    # its destination follows from the configuration as the user gave it, not from anything the first one left behind
+    second = None
+    if c.get("again") and c["kind"] == "file" and not must_fail:
+        name2 = "second-" + c["again"]
+        if out is None:
+            dest2 = os.path.abspath(os.path.join(cwd, name2))
+        elif os.path.isdir(os.path.abspath(os.path.join(cwd, out_path))) or (pre_made in ("emptydir", "dir") and os.path.isdir(target)):
+            dest2 = os.path.abspath(os.path.join(cwd, out_path, name2))
+        else:
+            dest2 = os.path.abspath(os.path.join(cwd, out_path))
+        data2 = b"second transfer " * 3
+        w2 = FakeWormhole([_json.dumps({"transit": {"abilities-v1": [{"type": "direct-tcp-v1"}], "hints-v1": []}}).encode(),
+                           _json.dumps({"offer": {"file": {"filename": name2, "filesize": len(data2)}}}).encode()])
+        pipe2 = FakePipe(data2)
+        args.stdout = io.StringIO()
+        args.stderr = io.StringIO()
+        out2 = []
+        with mock.patch("builtins.input", lambda prompt="": "y"), \
+                mock.patch.object(sys, "stderr", io.StringIO()), \
+                mock.patch.object(cmd_receive, "create", lambda *a, **kw: w2), \
+                mock.patch.object(cmd_receive, "TransitReceiver", lambda *a, **kw: FakeTransit(pipe2)):
+            try:
+                d2 = cmd_receive.receive(args, reactor=Clock())
+                d2.addCallbacks(lambda x: out2.append(("ok", x)), lambda f: out2.append(("err", f.value)))
+            except Exception as ex:
+                out2.append(("err", ex))
+        after2 = snapshot(base)
+        rel2 = os.path.relpath(dest2, base)
+        changed2 = sorted(p_ for p_ in set(after) | set(after2) if after.get(p_) != after2.get(p_))
+        second = (out2[0][0] if out2 else "pending", rel2, changed2)
+        for p_ in changed2:
+            if p_ not in (rel2, rel2 + ".tmp"):
+                res.violate("outside", "second transfer with the same configuration (--output-file %r): offer %r should go to %r "
+                            "but %r changed; first transfer: %s" % (out, name2, rel2, p_, outcome[0][0]),
+                            input_class="second-transfer-wrote-elsewhere")
+                break
     # ---- oracle
     created = sorted(p for p in after if p not in before)
     removed = sorted(p for p in before if p not in after)
